@@ -26,7 +26,7 @@ ASSUMPTIONS = [
 ]
 
 KF_KEY = 'parse-huge-range-end'
-IMPORTS = 'From DV Require Import Base.Corr Model.CpuSetModel Model.C43Check.'
+IMPORTS = 'From Coq Require Import String.\nFrom DV Require Import Base.Corr Model.CpuSetModel Model.C43Check.'
 ALPHA = [48, 49, 50, 51, 52, 53, 54, 55, 56, 57, 44, 45, 32]
 I32MIN, I32MAX = -(1 << 31), (1 << 31) - 1
 IDPOOL = [I32MIN, I32MIN + 1, -100000, -1025, -1024, -65, -64, -2, -1, 0, 1, 2, 31, 32, 62, 63, 64, 65, 127, 128, 129, 255, 256, 511, 512, 960,
@@ -45,8 +45,26 @@ def rid(r):
     return r.randint(I32MIN, I32MAX)
 
 
-def gen_ops(r, n):
+def boundary_ops():
+    """deterministic family aimed at the clamps: ranges that start at or below 0 / end at or above 1024, on full and empty sets"""
     cases = []
+    qs = [('q', -1), ('q', 0), ('q', 1), ('q', 63), ('q', 64), ('q', 1022), ('q', 1023), ('q', 1024), ('n',)]
+    starts = [I32MIN, -1, 0, 1, 63, 64, 1023, 1024]
+    ends = [I32MIN, 0, 1, 2, 64, 65, 1023, 1024, 1025, I32MAX]
+    for s in starts:
+        for e in ends:
+            if e - s > 200 and not (s <= 1 and e >= 1023):
+                continue
+            cases.append([('A', s, e)] + qs)
+            cases.append([('A', -7, 1031), ('R', s, e)] + qs)
+    for a in [I32MIN, -1, 0, 1, 1022, 1023, 1024, I32MAX]:
+        cases.append([('a', a)] + qs + [('r', a)] + qs)
+        cases.append([('A', 0, 1024), ('r', a)] + qs + [('a', a), ('n',), ('c',), ('n',)])
+    return cases
+
+
+def gen_ops(r, n):
+    cases = boundary_ops()
     while len(cases) < n:
         k = r.randint(1, 14)
         ops, touched = [], [0, 1023]
@@ -263,11 +281,11 @@ def cmd_of(line):
 
 # ---------------------------------------------------------------------------------------------------- the run
 def judge_parallel(ctx, jobs):
-    """jobs: list of (name, judge_fn, terms).  Returns dict name -> verdict list or None"""
+    """jobs: list of (name, [(judge_fn, terms), ...]).  Returns dict name -> concatenated verdict list or None"""
     def one(j):
-        name, fn, terms = j
-        res = pf_common.coq_judge(ctx, name, IMPORTS, [(fn, terms)], timeout=1500)
-        return name, (res[0] if res is not None else None)
+        name, defs = j
+        res = pf_common.coq_judge(ctx, name, IMPORTS, defs, timeout=1500)
+        return name, (sum(res, []) if res is not None else None)
     out = {}
     with concurrent.futures.ThreadPoolExecutor(max_workers=8) as ex:
         for name, res in ex.map(one, jobs):
@@ -279,9 +297,9 @@ def run(ctx):
     ctx.prove(models=['Model/C43Check.v', 'Base/Corr.v'])
     exe = dv.build_harness('h_cpuset', ['h_cpuset.cpp'])
     r = ctx.rng
-    nops = 400 if ctx.quick else 6000
-    nstr = 1200 if ctx.quick else 12000
-    ngrp = 400 if ctx.quick else 5000
+    nops = 300 if ctx.quick else 6000
+    nstr = 900 if ctx.quick else 12000
+    ngrp = 300 if ctx.quick else 5000
     maxlen = 4 if ctx.quick else 5
 
     ops = gen_ops(r, nops)
@@ -326,20 +344,22 @@ def run(ctx):
         terms.append('(%s, (%s, %s))' % (ops_term(c), zl(res), big(w)))
         kept.append((c, l, o))
     for i, sh in enumerate(pf_common.shard(list(zip(terms, kept)), max(1, len(terms) // 1600))):
-        jobs.append(('ops%d' % i, 'judge_ops', [t for t, _ in sh]))
+        jobs.append(('ops%d' % i, [('judge_ops', [t for t, _ in sh])]))
         keep['ops%d' % i] = [k for _, k in sh]
     # --- strings
-    terms, kept = [], []
+    pairs = []
     for s, o, l in zip(strs, o_str, l_str):
         w = words_of(o, 'parse')
         if w is None:
             ctx.violation('harness failed on %s: %s' % (l, o), {'case': l, 'output': o, 'cmd': cmd_of(l)})
             continue
-        terms.append('(%s, %s)' % (zl(s), zl(w)))
-        kept.append((s, l, o))
-    for i, sh in enumerate(pf_common.shard(list(zip(terms, kept)), max(1, len(terms) // 1600))):
-        jobs.append(('str%d' % i, 'judge_parse', [t for t, _ in sh]))
-        keep['str%d' % i] = [k for _, k in sh]
+        fn, term = str_term(s, w)
+        pairs.append((fn, term, (s, l, o)))
+    for i, sh in enumerate(pf_common.shard(pairs, max(1, len(pairs) // 1600))):
+        a = [x for x in sh if x[0] == 'judge_parse_s']
+        b = [x for x in sh if x[0] == 'judge_parse']
+        jobs.append(('str%d' % i, [('judge_parse_s', [x[1] for x in a]), ('judge_parse', [x[1] for x in b])]))
+        keep['str%d' % i] = [x[2] for x in a] + [x[2] for x in b]
     # --- exhaustive buckets (cheap ones together, the rest spread over the workers)
     terms, kept = [], []
     for (p, n), o, l in zip(buckets, o_ex, l_ex):
@@ -351,7 +371,7 @@ def run(ctx):
     pairs = list(zip(terms, kept))
     r.shuffle(pairs)                      # spread the expensive "d-" buckets
     for i, sh in enumerate(pf_common.shard(pairs, 2 if ctx.quick else 16)):
-        jobs.append(('ex%d' % i, 'judge_bucket', [t for t, _ in sh]))
+        jobs.append(('ex%d' % i, [('judge_bucket', [t for t, _ in sh])]))
         keep['ex%d' % i] = [k for _, k in sh]
     # --- topologies
     terms, kept = [], []
@@ -363,7 +383,7 @@ def run(ctx):
         terms.append('((%s, %s, %s), (%s, %s))' % (zll(c[0]), zll(c[1]), dv.zlit(c[2]), zll(p[0]), dv.coq_list([big(m) for m in p[1]])))
         kept.append((c, l, p))
     for i, sh in enumerate(pf_common.shard(list(zip(terms, kept)), max(1, len(terms) // 1000))):
-        jobs.append(('grp%d' % i, 'judge_groups', [t for t, _ in sh]))
+        jobs.append(('grp%d' % i, [('judge_groups', [t for t, _ in sh])]))
         keep['grp%d' % i] = [k for _, k in sh]
 
     res = judge_parallel(ctx, jobs)
@@ -371,7 +391,7 @@ def run(ctx):
 
     hist = {'ops': {}, 'parse': {}, 'bucket': {}, 'groups': {}}
     bad_buckets = []
-    for name, _, terms in jobs:
+    for name, _ in jobs:
         vs = res.get(name)
         if vs is None:
             ctx.broken.append('correspondence D(C43): the model no longer evaluates on shard %s (see coq_eval_errors)' % name)
@@ -428,8 +448,8 @@ def run(ctx):
         sl = ['parse %d %s' % (len(s), ' '.join(map(str, s))) for s in sub]
         sl = [' '.join(x.split()) for x in sl]
         so = pf_common.run_harness(exe, sl)
-        terms = ['(%s, %s)' % (zl(s), zl(words_of(o, 'parse') or [])) for s, o in zip(sub, so)]
-        rs = judge_parallel(ctx, [('bad%d' % i, 'judge_parse', [t for t in sh]) for i, sh in enumerate(pf_common.shard(terms, 4))])
+        terms = ['(%s, %s)' % (zl(s), big(words_of(o, 'parse') or [0])) for s, o in zip(sub, so)]
+        rs = judge_parallel(ctx, [('bad%d' % i, [('judge_parse', [t for t in sh])]) for i, sh in enumerate(pf_common.shard(terms, 4))])
         flat = []
         for i in range(4):
             flat += rs.get('bad%d' % i) or []
